@@ -1070,7 +1070,7 @@ func (in *c14gInst) pair(st c14cStep) (string, error) {
 	}
 	for si := 0; si < 2; si++ {
 		if errs[si] != nil {
-			return "", mc.Violatef("C14:valid-call-rejected@group", "scope %s: %s (submitted concurrently with %v) returned error: %v", c14cNames[si], cs[si], st, errs[si])
+			return "", mc.Violatef("C14:valid-call-rejected@group", "scope %s: %s (submitted concurrently with %v) returned error: %s", c14cNames[si], cs[si], st, c14model.Sanitize(errs[si].Error()))
 		}
 		if cs[si] != nil {
 			in.m[si].Apply(*cs[si])
@@ -1160,7 +1160,10 @@ func TestVerifC14(t *testing.T) {
 	}
 	// open part first: a defect that needs no crash gets the shortest counterexample
 	if rf == nil || strings.HasPrefix(rf.System, "open-") {
+		// the open-gc system places GC passes at chunk writes: dispatcher of the chunk-write seam
+		restore := c14cInstallChunkHook()
 		VerifC14OpenPart(r)
+		restore()
 	}
 	if (rf == nil && r.ViolationCount() == 0) || (rf != nil && !strings.HasPrefix(rf.System, "open-")) {
 		c14cCrashPart(r)
